@@ -100,9 +100,28 @@ Definition decisive_law (pol : bool) (pop : population) (n : nat) : option (list
     then Some (tally Z.eqb (flat_map (fun o => match o with Some w => [(Z.of_nat w, Qmake 1 (Pos.of_nat n))] | None => [] end) ws))
     else None
   else None.
+Fixpoint zlist_eqb (a b : list Z) : bool :=
+  match a, b with [], [] => true | x :: a', y :: b' => (x =? y)%Z && zlist_eqb a' b' | _, _ => false end.
+(* lexicase with many cases on which ALL individuals tie (identical results on each of the first n cases): nobody is ever
+   eliminated, the selection is uniform over the population - LexTied.lexicase_all_tied / C08_all_tied_uniform; the law is
+   expressed over the classes of identical individuals, like [law] *)
+Definition all_tied_law (pol : bool) (pop : population) (n : nat) : option (list (Z * Q)) :=
+  let all := seq 0 (length pop) in
+  (* every individual has at least n results, and the first n results of all individuals coincide (linear in the size of
+     the matrix: the case counts here run to tens of thousands) - which is tied_on (seq 0 n) all *)
+  match pop with
+  | r0 :: _ =>
+    if (2 <=? length pop)%nat && (n <=? length r0)%nat &&
+       forallb (fun r => zlist_eqb (firstn n r) (firstn n r0)) pop
+    then Some (tally Z.eqb (map (fun i => (class_of false pop i, Qmake 1 (Pos.of_nat (length pop)))) all))
+    else None
+  | [] => None
+  end.
 Definition big_lexicase (pol : bool) (pop : population) (s : sel) : option (list (Z * Q)) :=
   match s with
-  | SLexicase n => if (8 <? n)%nat then decisive_law pol pop n else None
+  | SLexicase n => if (8 <? n)%nat
+                   then match all_tied_law pol pop n with Some l => Some l | None => decisive_law pol pop n end
+                   else None
   | _ => None
   end.
 
